@@ -53,7 +53,10 @@ def run_shard_main(args):
         ctx.deadline = time.time() + budget
     core.import_eqsig()
     try:
-        mod.run_shard(ctx)
+        if args.testsuite:
+            run_testsuite(ctx, mod)
+        else:
+            mod.run_shard(ctx)
         res = ctx.result()
         res['crashed'] = None
     except BaseException as e:   # a crash of the harness itself is inconclusive, reported by the parent
@@ -63,6 +66,45 @@ def run_shard_main(args):
     with open(args.out, 'w') as f:
         json.dump(res, f)
     return 0
+
+
+TS_DONE = 'testsuite-under-monitors.completed'
+
+
+def wants_testsuite(mod, tier):
+    """thorough tier: the repository's own tests are run once more with this property's monitors attached (C05 does this inside
+    its own workload; modules without an install(ctx) hook - history drivers - have nothing to attach)"""
+    return tier == 'thorough' and hasattr(mod, 'install') and mod.PROP_ID != 'C05' and not getattr(mod, 'NO_TESTSUITE', False)
+
+
+def run_testsuite(ctx, mod):
+    """pseudo-shard: pytest runs in this process after the property's monitors are installed, so that every call the
+    repository's tests make to a monitored function is judged like a call of the generated workload"""
+    from vf import core, attach
+    import io
+    import contextlib
+    tests = os.path.join(core.repo_dir(), 'tests')
+    if not os.path.isdir(tests):
+        ctx.observe('testsuite-under-monitors: no tests directory')
+        return
+    mod.install(ctx)
+    import pytest
+    cwd = os.getcwd()
+    os.chdir(core.repo_dir())
+    buf = io.StringIO()
+    try:
+        with contextlib.redirect_stdout(buf), contextlib.redirect_stderr(buf):
+            rc = pytest.main(['-q', '-p', 'no:cacheprovider', '--timeout=900', 'tests'])
+    finally:
+        os.chdir(cwd)
+    tail = (buf.getvalue().strip().splitlines() or [''])[-1]
+    ctx.note('testsuite_under_monitors', {'pytest_exit': int(rc), 'summary': tail[:200],
+                                          'monitored_calls': dict(sorted(attach.CALLS.items(), key=lambda kv: -kv[1])[:20])})
+    ctx.observations['testsuite-under-monitors: monitor evaluations'] = sum(ctx.counters.values())
+    if int(rc) == 0:
+        ctx.ok(TS_DONE)
+    else:
+        ctx.observe('testsuite-under-monitors: pytest exit %s: %s' % (int(rc), tail[:100]))
 
 
 def load_ledger():
@@ -78,6 +120,7 @@ def main(argv=None):
     ap.add_argument('--tier', default='quick', choices=['quick', 'thorough'])
     ap.add_argument('--replay')
     ap.add_argument('--shard')
+    ap.add_argument('--testsuite', action='store_true')
     ap.add_argument('--out')
     ap.add_argument('--seed', type=int, default=None)
     ap.add_argument('--jobs', type=int, default=None)
@@ -125,6 +168,9 @@ def parent_main(args):
     problems = []
     try:
         pending = list(range(nsh))
+        with_ts = wants_testsuite(mod, args.tier)
+        if with_ts:
+            pending.append(nsh)          # pseudo-shard nsh: the repository's tests under this property's monitors
         running = {}
         timeout = SHARD_TIMEOUT[args.tier]
         while pending or running:
@@ -133,7 +179,7 @@ def parent_main(args):
                 out = os.path.join(tmp, 'shard%d.json' % i)
                 log = open(os.path.join(tmp, 'shard%d.log' % i), 'w')
                 p = subprocess.Popen([sys.executable, '-m', 'vf.cli', prop, '--tier', args.tier, '--seed', str(args.seed),
-                                      '--shard', '%d/%d' % (i, nsh), '--out', out],
+                                      '--shard', '%d/%d' % (i, nsh), '--out', out] + (['--testsuite'] if i == nsh else []),
                                      stdout=log, stderr=subprocess.STDOUT, cwd=HERE)
                 running[i] = (p, out, time.time(), log)
             time.sleep(0.05)
@@ -162,12 +208,12 @@ def parent_main(args):
                 else:
                     tail = open(os.path.join(tmp, 'shard%d.log' % i)).read()[-1500:]
                     problems.append('shard %d exited %s without a result: %s' % (i, rc, tail))
-        return finish(args, mod, results, problems, nsh, t0, repo)
+        return finish(args, mod, results, problems, nsh + (1 if with_ts else 0), t0, repo, with_ts)
     finally:
         shutil.rmtree(tmp, ignore_errors=True)
 
 
-def finish(args, mod, results, problems, nsh, t0, repo):
+def finish(args, mod, results, problems, nsh, t0, repo, with_ts=False):
     prop = args.prop
     counters, viol_counts, finding_counts, observations, classes, notes, exhaustive = {}, {}, {}, {}, {}, {}, {}
     violations, samples = [], []
@@ -215,6 +261,8 @@ def finish(args, mod, results, problems, nsh, t0, repo):
         have = counters.get(clause, 0) + viol_counts.get(clause, 0)
         if have < need:
             inconclusive.append('monitor clause %r evaluated %d times, needs >= %d' % (clause, have, need))
+    if with_ts and counters.get(TS_DONE, 0) < 1:
+        inconclusive.append('the repository test-suite did not complete under the monitors: %s' % (notes.get('testsuite_under_monitors'),))
     evaluations = sum(counters.values()) + sum(viol_counts.values()) + sum(finding_counts.values())
     distinct = len(digests) + dbc
     if evaluations < 1 or distinct < 2:
